@@ -6,9 +6,10 @@
 #![allow(non_snake_case, clippy::all, unused_macros)]
 mod hs;
 mod scen_core;
+mod scen_rel;
+mod scen_routing;
+mod scen_stats;
 mod stub;
-#[cfg(feature = "more")]
-mod more;
 
 use hs::*;
 use std::alloc::{GlobalAlloc, Layout, System};
@@ -60,18 +61,14 @@ impl Cfg {
 
 fn run_scenario<T: HS>(scenario: &str, cfg: &Cfg, out: &mut Out<T>) {
     match scenario {
-        "core" => {
-            scen_core::run::<T>(cfg, out);
-        }
-        _ => {
-            #[cfg(feature = "more")]
-            {
-                if more::run::<T>(scenario, cfg, out) {
-                    return;
-                }
-            }
-            panic!("unknown scenario {scenario}")
-        }
+        "core" => scen_core::run::<T>(cfg, out),
+        "relw" => scen_rel::relw::<T>(cfg, out),
+        "relmrhs" => scen_rel::relmrhs::<T>(cfg, out),
+        "lin" => scen_rel::lin::<T>(cfg, out),
+        "stats" => scen_stats::run::<T>(cfg, out),
+        "relw_stats" => scen_stats::relw_stats::<T>(cfg, out),
+        "routing" => scen_routing::run::<T>(cfg, out),
+        _ => panic!("unknown scenario {scenario}"),
     }
 }
 
